@@ -447,7 +447,21 @@ impl<'a> PGen<'a> {
                 }
                 _ => bin(*self.rng.pick(&[".==", ".!="]), self.expr(T::Str, d1), self.expr(T::Str, d1)),
             },
-            T::LNum => match self.rng.below(25) {
+            T::LNum => match self.rng.below(27) {
+                25 | 26 => {
+                    // one operator applied several times in a row with the same (fractional)
+                    // right operand, element by element or by broadcasting: each result is a
+                    // function of its two operands alone, whatever was computed just before
+                    let op = *self.rng.pick(&["%", "%", "/", "^", "*", "-"]);
+                    let d = numf(*self.rng.pick(&["0.1", "0.3", "0.7", "1.3", "2.675", "0.5", "3"]));
+                    let n = self.rng.range(2, 5);
+                    let lefts: Vec<E> = (0..n).map(|_| if self.rng.chance(1, 2) { self.num_lit() } else { num(self.rng.range(1, 9)) }).collect();
+                    if self.rng.chance(1, 2) {
+                        bin(op, E::List(lefts), d)
+                    } else {
+                        E::List(lefts.into_iter().map(|l| bin(op, l, d.clone())).collect())
+                    }
+                }
                 0 | 1 => self.leaf(T::LNum),
                 2 => {
                     let mut xs: Vec<E> = (0..self.rng.below(5)).map(|_| self.expr(T::Num, d1)).collect();
